@@ -2,7 +2,7 @@
    predicate and complement of the six classes instead of the decidable premises. *)
 From Coq Require Import String Ascii.
 From Coq Require Import List Arith Lia Bool Permutation.
-Require Import TT.Model.Base TT.Model.Str TT.Model.C07TypeParse TT.Model.Harvest TT.Model.C07Worklist TT.Model.C07Reach.
+Require Import TT.Model.Base TT.Model.Str TT.Model.C07TypeParse TT.Model.C07Harvest TT.Model.C07Worklist TT.Model.C07Reach.
 Require Import TT.Spec.TsObs TT.Spec.C07Spec TT.Proofs.WorklistSpike TT.Proofs.C07Proofs TT.Proofs.C07Concrete TT.Proofs.C07Lift.
 Import ListNotations.
 
@@ -29,25 +29,15 @@ Proof.
   lia.
 Qed.
 
-Lemma event_class_opt p : in_domain p = true -> kf_c07_event_nested p = false -> kf_c07_event_nested_opt p = Some false.
-Proof.
-  intros Hdom Hk. unfold kf_c07_event_nested, kf_c07_event_nested_opt, reachable_spec, reach_from in *.
-  destruct (spec_total p (command_roots p ++ event_roots p) Hdom) as (a & Ea).
-  destruct (spec_total p (command_roots p) Hdom) as (b & Eb).
-  unfold reach_from_opt in *. rewrite Ea, Eb in *. rewrite Hk. reflexivity.
-Qed.
-
 Theorem declared_exact_full o p decl : ord_ok o -> in_domain p = true ->
-  kf_c07_result_map p = false -> kf_c07_tuple_generic p = false -> kf_c07_result_alias p = false ->
+  kf_c07_result_map p = false -> kf_c07_tuple_generic p = false ->
   kf_c07_field_result p = false -> kf_c07_odd_name p = false -> kf_c07_inline_mod p = false ->
-  kf_c07_event_nested p = false ->
   C07Reach.declared o p = Some decl ->
   NoDup decl /\ (forall x, In x decl <-> SpecReach p x) /\ Permutation decl (reachable_spec p).
 Proof.
-  intros Ho Hdom K1 K2 K3 K5 K6 K7 K4 Hd.
-  pose proof (agree_from_classes p Hdom K1 K2 K3 K5 K6 K7) as Ha.
-  pose proof (event_class_opt p Hdom K4) as Hk.
-  destruct (declared_exact o Ho p Ha decl Hk Hd) as [Hnd Hin]. split; auto. split; auto.
+  intros Ho Hdom K1 K2 K5 K6 K7 Hd.
+  pose proof (agree_from_classes p Hdom K1 K2 K5 K6 K7) as Ha.
+  destruct (declared_exact o Ho p Ha decl Hd) as [Hnd Hin]. split; auto. split; auto.
   destruct (spec_total p (command_roots p ++ event_roots p) Hdom) as (l & El).
   assert (reachable_spec p = l). { unfold reachable_spec, reach_from. unfold reach_from_opt in El. rewrite El. reflexivity. }
   subst l. destruct (reachable_spec_exact p _ El) as [Hnl Hil].
